@@ -29,6 +29,9 @@ try:
         print(p, 'exit', r.returncode, vio[:1], (json.dumps(rep)[:300] if rep else ''))
 finally:
     subprocess.run(['git', '-C', '/repo', 'checkout', '--', '.'])
+    # rebuild the harness from the restored tree (otherwise harness/target keeps the mutated binary until the next check)
+    subprocess.run('cargo build --release --offline', shell=True, cwd='/verif/harness', capture_output=True,
+                   env=dict(os.environ, RUSTFLAGS='--cfg bb_verif', CARGO_NET_OFFLINE='true'))
 meta_path = f'{dst}/meta.json'
 meta = json.load(open(meta_path)) if os.path.exists(meta_path) else {}
 meta.setdefault('id', sid)
